@@ -61,7 +61,8 @@ func filter(only bool, opt *Option, profile string) (string, error) {
 	if opt.IsInline() {
 		profile = strings.ReplaceAll(profile, opt.Raw, "")
 	} else {
-		regRemoveParagraph := regexp.MustCompile(`(?s)` + opt.Raw + `\n.*?\n\n`)
+		// The directive line, alone on its line, up to the end of the paragraph
+		regRemoveParagraph := regexp.MustCompile(`(?ms)^` + regexp.QuoteMeta(opt.Raw) + `\n.*?\n\n`)
 		profile = regRemoveParagraph.ReplaceAllString(profile, "")
 	}
 	return profile, nil
